@@ -250,12 +250,15 @@ class Run:
         self.spawned: list[asyncio.Task] = []
         self.actor_tasks: list[asyncio.Task] = []
         self.actor_state: dict[int, Any] = {}
+        self.actor_events: dict[int, list] = {}
         self.stopped: set[int] = set()
         self.workdir = workdir
         self.loop: VLoop | None = None
         self.log = LogCapture()
         self.final: dict | None = None
         self.abort: str | None = None
+        self.fn_of: dict[int, Any] = {}
+        self.shared: dict[str, Any] = {}  # events published by handlers for sibling handlers to await
         self.W = float(sc.get('W') or (self._max_wait(sc) + 0.5))
         self.max_records = int(sc.get('max_records', 40000))
 
@@ -276,7 +279,7 @@ class Run:
                     o = op[5] if len(op) > 5 and op[5] else {}
                     if o.get('timeout'):
                         m = max(m, o['timeout'])
-                elif k in ('idle', 'stop'):
+                elif k in ('idle', 'stop', 'stop_bus'):
                     if op[2]:
                         m = max(m, op[2])
                 elif k == 'expect':
@@ -386,13 +389,18 @@ class Run:
         # registration order = order in scenario['reg'] if present else handlers then forwards
         for hi, h in enumerate(self.sc['handlers']):
             if h['bus'] == i:
-                fn = self._make_handler(hi, h)
+                root = self.root_of(hi)
+                fn = self.fn_of.get(root)
+                if fn is None:
+                    fn = self.fn_of[root] = self._make_handler(root, self.sc['handlers'][root])
+                    self.keep.append(fn)
                 pat = h['pat']
-                b.on('*' if pat == '*' else (TYPES[pat] if isinstance(pat, int) else pat), fn)
+                with warnings.catch_warnings():
+                    warnings.simplefilter('ignore')
+                    b.on('*' if pat == '*' else (TYPES[pat] if isinstance(pat, int) else pat), fn)
                 hid = S.get_handler_id(fn, b)
-                self.hmap[hid] = f'B{i}.h{hi}'
-                self.hidx[hid] = hi
-                self.keep.append(fn)
+                self.hmap[hid] = f'B{i}.h{root}'
+                self.hidx[hid] = root
         for fi, (a, d, pat) in enumerate(self.sc.get('fwd', [])):
             if a == i:
                 tgt = self.getbus(d)
@@ -400,6 +408,26 @@ class Run:
                 b.on('*' if pat == '*' else (TYPES[pat] if isinstance(pat, int) else pat), fn)
                 self.hmap[S.get_handler_id(fn, b)] = f'B{i}.fwd{fi}>B{d}'
                 self.keep.append(fn)
+
+    def root_of(self, hi: int) -> int:
+        """A handler entry with 'same_as' registers the SAME function object as that other entry (on another bus,
+        under another pattern, or a second time)."""
+        seen = set()
+        while 'same_as' in self.sc['handlers'][hi] and hi not in seen:
+            seen.add(hi)
+            hi = self.sc['handlers'][hi]['same_as']
+        return hi
+
+    def bus_running_handler(self, default: int) -> int:
+        """Which bus is executing the current handler: needed only for a function object registered on several buses.
+        Read from the library's handler-id context ('<id(bus)>.<id(handler)>'); labelling only."""
+        hid = S._current_handler_id_context.get()
+        if hid:
+            bid = hid.split('.')[0]
+            for i, b in self.buses.items():
+                if str(id(b)) == bid:
+                    return i
+        return default
 
     def mk(self, t: int, opts: dict | None = None) -> BaseEvent:
         opts = opts or {}
@@ -472,6 +500,10 @@ class Run:
                 c = self.mk(t, opts)
                 if not self._dispatch(c, b, by, parent_tag):
                     continue
+                if opts and opts.get('share'):
+                    self.shared[opts['share']] = c  # a sibling / another handler may await this event too
+                if opts and opts.get('also') is not None:
+                    self._dispatch(c, opts['also'], by, parent_tag)  # the same child object dispatched to a second bus
                 if mode == 'fire':
                     continue
                 if mode == 'later':
@@ -480,6 +512,20 @@ class Run:
                 if pre is not None and pre >= 0:
                     await asyncio.sleep(pre)
                 await self._await_event(c, by)
+                if mode == 'await2':
+                    await self._await_event(c, by)  # awaiting an already complete event again
+            elif k == 'await_shared':
+                c = self.shared.get(op[1])
+                if c is not None and c.event_path:
+                    await self._await_event(c, by)
+            elif k == 'stop_bus':
+                b = self.buses.get(op[1])
+                if b is not None:
+                    sq = self.n + 1
+                    self.rec('stop_call', by=by, bus=op[1], timeout=op[2], call=sq, running=b._is_running, clear=bool(len(op) > 3 and op[3]))
+                    await b.stop(timeout=op[2], clear=bool(len(op) > 3 and op[3]))
+                    self.stopped.add(op[1])
+                    self.rec('stop_ret', by=by, bus=op[1], call=sq, timeout=op[2])
             elif k == 'many':
                 _, t, b, n = op[:4]
                 for _j in range(n):
@@ -552,7 +598,11 @@ class Run:
                 _, t, b = op[:3]
                 opts = op[5] if len(op) > 5 else None
                 c = self.mk(t, opts)
-                self._dispatch(c, b, by, parent_tag)
+                if self._dispatch(c, b, by, parent_tag):
+                    if opts and opts.get('share'):
+                        self.shared[opts['share']] = c
+                    if opts and opts.get('also') is not None:
+                        self._dispatch(c, opts['also'], by, parent_tag)
             elif k == 'many':
                 _, t, b, n = op[:4]
                 for _j in range(n):
@@ -579,7 +629,7 @@ class Run:
                 except BaseException as ex:
                     got = type(ex).__name__
                 self.rec('event_bus', by=by, got=got)
-            elif k in ('sleep', 'spawn'):
+            elif k in ('sleep', 'spawn', 'await_shared', 'stop_bus'):
                 continue  # not expressible in a sync handler
             else:
                 raise AssertionError(f'unknown op {op}')
@@ -599,11 +649,13 @@ class Run:
 
     def _make_handler(self, hi: int, h: dict):
         run = self
-        bi = h['bus']
+        home = h['bus']
+        multi_bus = any(run.root_of(j) == hi and hj['bus'] != home for j, hj in enumerate(self.sc['handlers']))
         kind = h.get('kind', 'async')
         prog = h['prog']
 
         async def a_body(event):
+            bi = run.bus_running_handler(home) if multi_bus else home
             inv = run._h_enter(hi, bi, event)
             t = asyncio.current_task()
             prev = run.task_role.get(id(t))
@@ -635,6 +687,7 @@ class Run:
                 run._h_exit(inv, out, eid, et)
 
         def s_body(event):
+            bi = run.bus_running_handler(home) if multi_bus else home
             inv = run._h_enter(hi, bi, event)
             out, eid, et = 'ret', 0, None
             try:
@@ -693,6 +746,7 @@ class Run:
     async def _actor(self, ai: int, ops) -> None:
         by = f'A{ai}'
         mine: list[BaseEvent] = []
+        self.actor_events[ai] = mine
         self.actor_state[ai] = None
         for i, op in enumerate(ops):
             k = op[0]
@@ -725,6 +779,16 @@ class Run:
                         res['ev'] = self.tag_of(e)
                         if e.event_path:  # only events that were accepted somewhere
                             await self._await_event(e, by)
+                elif k == 'await_of':
+                    other = self.actor_events.get(op[1], [])
+                    if op[2] < len(other) and other[op[2]].event_path:
+                        res['ev'] = self.tag_of(other[op[2]])
+                        await self._await_event(other[op[2]], by)
+                elif k == 'redisp_rejected':
+                    rej = [e for e in mine if not e.event_path]
+                    if rej:
+                        res['ev'] = self.tag_of(rej[0])
+                        self._dispatch(rej[0], op[1], by, None)
                 elif k == 'redisp':
                     if op[1] < len(mine):
                         e = mine[op[1]]
@@ -739,7 +803,7 @@ class Run:
                 elif k == 'stop':
                     b = self.getbus(op[1])
                     self.rec('stop_call', by=by, bus=op[1], timeout=op[2], call=sq, running=b._is_running)
-                    await b.stop(timeout=op[2])
+                    await b.stop(timeout=op[2], clear=bool(len(op) > 3 and op[3]))
                     self.stopped.add(op[1])
                     self.rec('stop_ret', by=by, bus=op[1], call=sq, timeout=op[2])
                 elif k == 'expect':
